@@ -396,6 +396,18 @@ func InstallFSStubs(e *Engine, srcRoot string) {
 		m.event("chmod", args[0], nil, fmt.Sprintf("%o", asInt64(args[1])))
 		return iface{}
 	}
+	ic["(*os.File).Chmod"] = func(ps *PathState, fr *frame, fn *ssa.Function, args []value) value {
+		m := model(ps)
+		f := args[0].(*fileObj)
+		if m.step(ps, "Chmod") {
+			return fsErr("Chmod", m.Step-1)
+		}
+		if node := m.Nodes[pathKey(f.name)]; node != nil {
+			node.Mode = uint32(asInt64(args[1]))
+		}
+		m.event("chmod", f.name, nil, fmt.Sprintf("%o", asInt64(args[1])))
+		return iface{}
+	}
 	ic["os.Rename"] = func(ps *PathState, fr *frame, fn *ssa.Function, args []value) value {
 		m := model(ps)
 		if m.step(ps, "Rename") {
